@@ -42,7 +42,9 @@ func (d *SimBlockDevice) ZeroInitialize() {
 var UseRealWiring = os.Getenv("VERIF_WIRING") != "harness"
 
 // Expressible reports whether a configuration message can describe the geometry.
-func (g Geometry) Expressible() bool { return g.Mutable == g.AC && !(g.Hierarchical && g.AC) }
+func (g Geometry) Expressible() bool {
+	return g.Mutable == g.AC && !(g.Hierarchical && g.AC) && !(g.AC && g.New != 1)
+}
 
 // creator wraps the repository's CAS / AC creator: only the read buffer factory is substituted.
 type creator struct {
@@ -201,6 +203,7 @@ func openReal(g Geometry, m *Media, opt OpenOptions) *Store {
 		s.InitialBlocks = s.Alloc.Reattached
 	}
 	s.Geo.ErrorRetry = 10 * time.Second // hard-coded in new_blob_access.go
+	vsched.Count("stores_assembled_by_NewBlobAccessFromConfiguration", 1)
 	return s
 }
 
